@@ -128,7 +128,7 @@ Definition top_ok (o : op) : Prop :=
   match o with
   | ORecv id | OSend id => 0 <= id
   | OMaxStreams _ n => 0 <= n
-  | OTransportParams nb nu => 0 <= nb /\ 0 <= nu
+  | OTransportParams nb nu _ => 0 <= nb /\ 0 <= nu
   | _ => True
   end.
 
@@ -189,8 +189,8 @@ Proof.
 Qed.
 
 Ltac simp_sm :=
-  cbn [s_client s_maxBidi s_maxUni s_ob s_ou s_ib s_iu s_reset s_zomb s_zacc s_out s_in set_out set_in
-       set_zomb set_zacc set_reset via_out via_in fst snd] in *.
+  cbn [s_client s_maxBidi s_maxUni s_ob s_ou s_ib s_iu s_reset s_zomb s_zacc s_rsa s_rsaIDs s_out s_in set_out set_in
+       set_zomb set_zacc set_reset set_rsa via_out via_in fst snd] in *.
 
 Lemma sm_set_out : forall s uni m, sm_inv s -> out_inv uni (s_client s) m -> sm_inv (set_out s uni m).
 Proof.
@@ -246,11 +246,11 @@ Qed.
 Lemma same_params_refl : forall s, same_params s s.
 Proof. intros; repeat split; reflexivity. Qed.
 
-Lemma tstep_inv : forall s o s' r fr, sm_inv s -> top_ok o -> tstep s o = (s', r, fr) ->
+Lemma tstep_core_inv : forall s o s' r fr, sm_inv s -> top_ok o -> tstep_core s o = (s', r, fr) ->
   sm_inv s' /\ same_params s s'.
 Proof.
   intros s o s' r fr I Hok E.
-  destruct o as [uni|uni w c|uni w|uni w|uni a|uni a|uni a|id|uni n|nb nu|id|id|e| |]; cbn [tstep top_ok] in *.
+  destruct o as [uni|uni w c|uni w|uni w|uni a|uni a|uni a|id|uni n|nb nu rsa|id|id|e| |]; cbn [tstep_core top_ok] in *.
   - destruct (s_reset s); [inj3 E; subst s'; split; [exact I|apply same_params_refl]|].
     eapply via_out_inv; eauto. exact Logic.I.
   - destruct (s_reset s); [inj3 E; subst s'; split; [exact I|apply same_params_refl]|].
@@ -313,6 +313,27 @@ Proof.
     split; apply out_inv_init.
   - inj3 E; subst s'. split; [|repeat split; reflexivity]. destruct I as (H1 & H2 & H3 & H4 & H5 & H6).
     unfold sm_inv, set_reset; simp_sm. repeat split; assumption || apply H3 || apply H4 || apply H5 || apply H6.
+Qed.
+
+Lemma sm_inv_set_rsa : forall s b ids, sm_inv s -> sm_inv (set_rsa s b ids).
+Proof. intros s b ids H. exact H. Qed.
+
+Lemma rsa_update_inv : forall o s r, sm_inv s -> sm_inv (rsa_update o s r) /\ same_params s (rsa_update o s r).
+Proof.
+  intros o s r I. unfold rsa_update.
+  destruct o; try (split; [exact I|apply same_params_refl]);
+    try (destruct r; try (split; [exact I|apply same_params_refl]); destruct (s_rsa s));
+    split; try exact I; try apply same_params_refl; try (apply sm_inv_set_rsa; exact I); repeat split; reflexivity.
+Qed.
+
+Lemma tstep_inv : forall s o s' r fr, sm_inv s -> top_ok o -> tstep s o = (s', r, fr) ->
+  sm_inv s' /\ same_params s s'.
+Proof.
+  intros s o s' r fr I Hok E. unfold tstep in E.
+  destruct (tstep_core s o) as [[s1 r1] fr1] eqn:C. inj3 E. subst r1 fr1 s'.
+  destruct (tstep_core_inv _ _ _ _ _ I Hok C) as [I1 (P1 & P2 & P3)].
+  destruct (rsa_update_inv o s1 r I1) as [I2 (Q1 & Q2 & Q3)].
+  split; [exact I2|]. repeat split; congruence.
 Qed.
 
 Lemma trun_inv : forall ops s s' outs, sm_inv s -> Forall top_ok ops -> trun s ops = (s', outs) ->
@@ -380,4 +401,309 @@ Proof.
   rewrite P1 in *.
   split; [eapply in_facts_inv; eauto using first_incoming_range|]. split; [exact Hui|].
   split; [eapply out_facts_inv; eauto using first_outgoing_range|exact Huo].
+Qed.
+
+(** * RESET_STREAM_AT only with the peer's consent *)
+
+Lemma via_out_rsa : forall s uni x s' r fr, via_out s uni x = (s', r, fr) ->
+  s_rsa s' = s_rsa s /\ s_rsaIDs s' = s_rsaIDs s.
+Proof. intros s uni [[m r0] f0] s' r fr E. cbn in E. inj3 E. subst s'. destruct uni; split; reflexivity. Qed.
+
+Lemma via_in_rsa : forall s uni x s' r fr, via_in s uni x = (s', r, fr) ->
+  s_rsa s' = s_rsa s /\ s_rsaIDs s' = s_rsaIDs s.
+Proof. intros s uni [[m r0] f0] s' r fr E. cbn in E. inj3 E. subst s'. destruct uni; split; reflexivity. Qed.
+
+Lemma tstep_core_rsa : forall s o s' r fr, tstep_core s o = (s', r, fr) ->
+  s_rsa s' = s_rsa s /\ s_rsaIDs s' = s_rsaIDs s.
+Proof.
+  intros s o s' r fr E.
+  destruct o as [uni|uni w c|uni w|uni w|uni a|uni a|uni a|id|uni n|nb nu rsa|id|id|e| |]; cbn [tstep_core] in E.
+  - destruct (s_reset s); [inj3 E; subst s'; split; reflexivity|eapply via_out_rsa; eauto].
+  - destruct (s_reset s); [inj3 E; subst s'; split; reflexivity|eapply via_out_rsa; eauto].
+  - destruct (zmem w (s_zomb s)); [inj3 E; subst s'; split; reflexivity|eapply via_out_rsa; eauto].
+  - destruct (zmem w (s_zomb s)); [inj3 E; subst s'; split; reflexivity|eapply via_out_rsa; eauto].
+  - destruct (s_reset s); [inj3 E; subst s'; split; reflexivity|eapply via_in_rsa; eauto].
+  - destruct (zmem a (s_zacc s)); [inj3 E; subst s'; split; reflexivity|].
+    destruct (zmem a (i_parked (s_in s uni))); [eapply via_in_rsa; eauto|inj3 E; subst s'; split; reflexivity].
+  - destruct (zmem a (s_zacc s)); [inj3 E; subst s'; split; reflexivity|eapply via_in_rsa; eauto].
+  - unfold t_delete in E. destruct (by_self s id); [eapply via_out_rsa; eauto|eapply via_in_rsa; eauto].
+  - eapply via_out_rsa; eauto.
+  - destruct (via_out s false _) as [[s1 x1] f1] eqn:E1. destruct (via_out s1 true _) as [[s2 x2] f2] eqn:E2.
+    inj3 E. subst s'. destruct (via_out_rsa _ _ _ _ _ _ E1) as [A1 A2]. destruct (via_out_rsa _ _ _ _ _ _ E2) as [B1 B2].
+    split; congruence.
+  - unfold t_get_recv in E. destruct (id_is_uni id), (by_self s id);
+      try (inj3 E; subst s'; split; reflexivity); eapply via_in_rsa; eauto.
+  - unfold t_get_send in E. destruct (id_is_uni id), (by_self s id); cbn [negb] in E;
+      try (inj3 E; subst s'; split; reflexivity); eapply via_in_rsa; eauto.
+  - inj3 E; subst s'; split; reflexivity.
+  - inj3 E; subst s'; split; reflexivity.
+  - inj3 E; subst s'; split; reflexivity.
+Qed.
+
+Definition tp_enables (o : op) : bool :=
+  match o with OTransportParams _ _ true => true | _ => false end.
+
+(** some open outgoing stream (or every stream created from now on) would use RESET_STREAM_AT *)
+Definition rsa_used (s : smap) : Prop := s_rsa s = true \/ s_rsaIDs s <> [].
+
+Lemma zremove_nonnil : forall x l, zremove x l <> [] -> l <> [].
+Proof. intros x [|y l] H; [exact H|discriminate]. Qed.
+
+Lemma rsa_open_case : forall s1 r,
+  rsa_used (match r with
+            | RId id => if s_rsa s1 then set_rsa s1 true (zinsert id (s_rsaIDs s1)) else s1
+            | _ => s1 end) -> rsa_used s1.
+Proof.
+  intros s1 r U. destruct r; try exact U. destruct (s_rsa s1) eqn:R; [left; exact R|exact U].
+Qed.
+
+Lemma tstep_rsa : forall s o s' r fr, tstep s o = (s', r, fr) ->
+  rsa_used s' -> rsa_used s \/ tp_enables o = true.
+Proof.
+  intros s o s' r fr E U. unfold tstep in E.
+  destruct (tstep_core s o) as [[s1 r1] fr1] eqn:C. inj3 E. subst r1 fr1 s'.
+  destruct (tstep_core_rsa _ _ _ _ _ C) as [A1 A2].
+  assert (K : rsa_used s1 -> rsa_used s) by (unfold rsa_used; rewrite A1, A2; auto).
+  destruct o as [uni|uni w c|uni w|uni w|uni a|uni a|uni a|id|uni n|nb nu rsa|id|id|e| |];
+    cbn [rsa_update tp_enables] in *; try (left; apply K; exact U).
+  - left. apply K. eapply rsa_open_case; eauto.
+  - left. apply K. eapply rsa_open_case; eauto.
+  - left. apply K. eapply rsa_open_case; eauto.
+  - (* DeleteStream *) left. apply K. unfold rsa_used in *. cbn [set_rsa s_rsa s_rsaIDs] in U.
+    destruct U as [U|U]; [left; exact U|right]. eapply zremove_nonnil; eauto.
+  - (* transport parameters *) destruct rsa; [right; reflexivity|left]. apply K.
+    unfold rsa_used in *. cbn [set_rsa s_rsa s_rsaIDs] in U. destruct U as [U|U]; [discriminate|right; exact U].
+  - (* ResetFor0RTT *) left. apply K. unfold rsa_used in *. cbn [set_rsa s_rsa s_rsaIDs] in U.
+    destruct U as [U|U]; [left; exact U|congruence].
+Qed.
+
+Lemma trun_rsa : forall ops s s' outs, trun s ops = (s', outs) ->
+  rsa_used s' -> rsa_used s \/ existsb tp_enables ops = true.
+Proof.
+  induction ops as [|o ops IH]; intros s s' outs E U; cbn [trun] in E.
+  - injection E as <- _. left. exact U.
+  - destruct (tstep s o) as [[s1 x] f1] eqn:S1. destruct (trun s1 ops) as [s2 outs2] eqn:R.
+    injection E as <- _. cbn [existsb].
+    destruct (IH _ _ _ R U) as [U1|U1]; [|right; rewrite U1; apply orb_true_r].
+    destruct (tstep_rsa _ _ _ _ _ S1 U1) as [U0|U0]; [left; exact U0|right; rewrite U0; reflexivity].
+Qed.
+
+(** no stream of ours uses RESET_STREAM_AT unless some transport parameters carried reset_stream_at *)
+Theorem sm_rsa_needs_consent : forall client mb mu ops s outs,
+  trun (init_sm client mb mu) ops = (s, outs) -> rsa_used s -> existsb tp_enables ops = true.
+Proof.
+  intros client mb mu ops s outs E U. destruct (trun_rsa _ _ _ _ E U) as [[H|H]|H]; [cbn in H; discriminate|cbn in H; congruence|exact H].
+Qed.
+
+(** transport parameters without reset_stream_at switch the extension on for no open stream *)
+Theorem sm_tp_without_rsa : forall s nb nu s' r fr,
+  tstep s (OTransportParams nb nu false) = (s', r, fr) -> s_rsa s' = false /\ s_rsaIDs s' = s_rsaIDs s.
+Proof.
+  intros s nb nu s' r fr E. unfold tstep in E.
+  destruct (tstep_core s (OTransportParams nb nu false)) as [[s1 r1] fr1] eqn:C. inj3 E. subst s'.
+  destruct (tstep_core_rsa _ _ _ _ _ C) as [A1 A2]. cbn. split; [reflexivity|exact A2].
+Qed.
+
+(** * FIFO for the four-map structure, across ResetFor0RTT / UseResetMaps *)
+
+(** callers of Open(Uni)StreamSync that started to wait / that got a stream after waiting *)
+Definition step_arr (uni : bool) (o : op) (r : res) : list Z :=
+  match o, r with OSyncCall u w _, RParked => if Bool.eqb u uni then [w] else [] | _, _ => [] end.
+Definition step_srv (uni : bool) (o : op) (r : res) : list Z :=
+  match o, r with OSyncWake u w, RId _ => if Bool.eqb u uni then [w] else [] | _, _ => [] end.
+
+Fixpoint tarrivals (uni : bool) (ops : list op) (outs : list (res * list frame)) : list Z :=
+  match ops, outs with
+  | o :: ops', (r, _) :: outs' => step_arr uni o r ++ tarrivals uni ops' outs'
+  | _, _ => []
+  end.
+Fixpoint tserved (uni : bool) (ops : list op) (outs : list (res * list frame)) : list Z :=
+  match ops, outs with
+  | o :: ops', (r, _) :: outs' => step_srv uni o r ++ tserved uni ops' outs'
+  | _, _ => []
+  end.
+
+Lemma s_out_set_out : forall s u m uni,
+  s_out (set_out s u m) uni = if Bool.eqb u uni then m else s_out s uni.
+Proof. intros s [] m []; reflexivity. Qed.
+Lemma s_out_set_in : forall s u m uni, s_out (set_in s u m) uni = s_out s uni.
+Proof. intros s [] m []; reflexivity. Qed.
+Lemma s_out_rsa_update : forall o s r uni, s_out (rsa_update o s r) uni = s_out s uni.
+Proof.
+  intros o s r uni. unfold rsa_update.
+  destruct o; try reflexivity; try (destruct r; try reflexivity; destruct (s_rsa s); reflexivity).
+Qed.
+
+Lemma via_out_queue : forall s u uni op s' r fr, sm_inv s ->
+  via_out s u (ostep (s_out s u) op) = (s', r, fr) ->
+  if Bool.eqb u uni then
+    match op, r with
+    | OpSyncCall w _, RParked => queue_ids (s_out s' uni) = queue_ids (s_out s uni) ++ [w]
+    | OpSyncWake w, RId _ => queue_ids (s_out s uni) = w :: queue_ids (s_out s' uni)
+    | _, _ => subseq (queue_ids (s_out s' uni)) (queue_ids (s_out s uni))
+    end
+  else s_out s' uni = s_out s uni.
+Proof.
+  intros s u uni op s' r fr I E.
+  destruct (ostep (s_out s u) op) as [[m x] f0] eqn:S1. cbn [via_out] in E. inj3 E. subst s' x f0.
+  rewrite s_out_set_out. destruct (Bool.eqb u uni) eqn:Eq; [|reflexivity].
+  apply eqb_prop in Eq. subst u.
+  destruct (sm_out s uni I) as ((n & K & B & Io) & _ & _).
+  exact (ostep_queue _ _ _ _ _ _ _ _ _ (first_outgoing_range uni (s_client s)) Io S1).
+Qed.
+
+Lemma via_in_out : forall s u x s' r fr uni, via_in s u x = (s', r, fr) -> s_out s' uni = s_out s uni.
+Proof. intros s u [[m r0] f0] s' r fr uni E. cbn in E. inj3 E. subst s'. apply s_out_set_in. Qed.
+
+(** one step of the induction behind the FIFO theorem *)
+Lemma tstep_fifo : forall s o s' r fr uni X A, sm_inv s -> top_ok o -> tstep s o = (s', r, fr) ->
+  subseq X (queue_ids (s_out s' uni) ++ A) ->
+  subseq (step_srv uni o r ++ X) (queue_ids (s_out s uni) ++ step_arr uni o r ++ A).
+Proof.
+  intros s o s' r fr uni X A I Hok E H. unfold tstep in E.
+  destruct (tstep_core s o) as [[s1 r1] fr1] eqn:C. inj3 E. subst r1 fr1 s'.
+  rewrite s_out_rsa_update in H.
+  assert (Same : s_out s1 uni = s_out s uni -> step_srv uni o r = [] -> step_arr uni o r = [] ->
+                 subseq (step_srv uni o r ++ X) (queue_ids (s_out s uni) ++ step_arr uni o r ++ A)).
+  { intros Q S1 S2. rewrite S1, S2. cbn [app]. rewrite <- Q. exact H. }
+  assert (Sub : subseq (queue_ids (s_out s1 uni)) (queue_ids (s_out s uni)) ->
+                step_srv uni o r = [] -> step_arr uni o r = [] ->
+                subseq (step_srv uni o r ++ X) (queue_ids (s_out s uni) ++ step_arr uni o r ++ A)).
+  { intros Q S1 S2. rewrite S1, S2. cbn [app]. eapply subseq_trans; [exact H|]. apply subseq_app_mono. exact Q. }
+  destruct o as [u|u w c|u w|u w|u a|u a|u a|id|u n|nb nu rsa|id|id|e| |]; cbn [tstep_core top_ok] in *.
+  - (* OpenStream *)
+    destruct (s_reset s); [inj3 C; subst s1; apply Same; reflexivity|].
+    pose proof (via_out_queue s u uni OpOpen s1 r fr I C) as Q.
+    destruct (Bool.eqb u uni); [|apply Same; [exact Q|reflexivity|reflexivity]].
+    apply Sub; [destruct r; exact Q|reflexivity|reflexivity].
+  - (* OpenStreamSync, call *)
+    destruct (s_reset s); [inj3 C; subst s1 r; apply Same; reflexivity|].
+    pose proof (via_out_queue s u uni (OpSyncCall w c) s1 r fr I C) as Q.
+    unfold step_arr, step_srv. destruct (Bool.eqb u uni).
+    + destruct r; try (cbn [app]; eapply subseq_trans; [exact H|]; apply subseq_app_mono; exact Q).
+      cbn [app]. rewrite Q in H. rewrite <- app_assoc in H. exact H.
+    + rewrite Q in H. destruct r; exact H.
+  - (* OpenStreamSync, woken *)
+    destruct (zmem w (s_zomb s)); [inj3 C; subst s1 r; apply Same; reflexivity|].
+    pose proof (via_out_queue s u uni (OpSyncWake w) s1 r fr I C) as Q.
+    unfold step_arr, step_srv. destruct (Bool.eqb u uni).
+    + destruct r; try (cbn [app]; eapply subseq_trans; [exact H|]; apply subseq_app_mono; exact Q).
+      cbn [app]. rewrite Q. cbn [app]. apply sub_take. exact H.
+    + rewrite Q in H. destruct r; exact H.
+  - (* OpenStreamSync, cancelled *)
+    destruct (zmem w (s_zomb s)); [inj3 C; subst s1; apply Same; reflexivity|].
+    pose proof (via_out_queue s u uni (OpSyncCancel w) s1 r fr I C) as Q.
+    destruct (Bool.eqb u uni); [|apply Same; [exact Q|reflexivity|reflexivity]].
+    apply Sub; [destruct r; exact Q|reflexivity|reflexivity].
+  - destruct (s_reset s); [inj3 C; subst s1; apply Same; reflexivity|].
+    apply Same; [eapply via_in_out; eauto|reflexivity|reflexivity].
+  - destruct (zmem a (s_zacc s)); [inj3 C; subst s1; apply Same; reflexivity|].
+    destruct (zmem a (i_parked (s_in s u))); [|inj3 C; subst s1; apply Same; reflexivity].
+    apply Same; [eapply via_in_out; eauto|reflexivity|reflexivity].
+  - destruct (zmem a (s_zacc s)); [inj3 C; subst s1; apply Same; reflexivity|].
+    apply Same; [eapply via_in_out; eauto|reflexivity|reflexivity].
+  - (* DeleteStream *)
+    unfold t_delete in C. destruct (by_self s id).
+    + pose proof (via_out_queue s (id_is_uni id) uni (OpDelete id) s1 r fr I C) as Q.
+      destruct (Bool.eqb (id_is_uni id) uni); [|apply Same; [exact Q|reflexivity|reflexivity]].
+      apply Sub; [destruct r; exact Q|reflexivity|reflexivity].
+    + apply Same; [eapply via_in_out; eauto|reflexivity|reflexivity].
+  - (* MAX_STREAMS *)
+    pose proof (via_out_queue s u uni _ s1 r fr I C) as Q.
+    destruct (Bool.eqb u uni); [|apply Same; [exact Q|reflexivity|reflexivity]].
+    apply Sub; [destruct r; exact Q|reflexivity|reflexivity].
+  - (* transport parameters *)
+    destruct Hok as [Hb Hu].
+    destruct (via_out s false _) as [[s2 x2] f2] eqn:E1.
+    destruct (via_out_inv s false _ _ _ _ I (set_max_ok nb false (s_client s) Hb) E1) as [I2 (P1 & _)].
+    destruct (via_out s2 true _) as [[s3 x3] f3] eqn:E2. inj3 C. subst s1.
+    pose proof (via_out_queue s false uni _ s2 x2 f2 I E1) as Q1.
+    pose proof (via_out_queue s2 true uni _ s3 x3 f3 I2 E2) as Q2.
+    apply Sub; [|reflexivity|reflexivity].
+    destruct uni; cbn [Bool.eqb] in Q1, Q2.
+    + rewrite <- Q1. destruct x3; exact Q2.
+    + rewrite Q2. destruct x2; exact Q1.
+  - (* receive-side frame *)
+    unfold t_get_recv in C. destruct (id_is_uni id), (by_self s id);
+      try (inj3 C; subst s1; apply Same; reflexivity);
+      (apply Same; [eapply via_in_out; eauto|reflexivity|reflexivity]).
+  - unfold t_get_send in C. destruct (id_is_uni id), (by_self s id); cbn [negb] in C;
+      try (inj3 C; subst s1; apply Same; reflexivity);
+      (apply Same; [eapply via_in_out; eauto|reflexivity|reflexivity]).
+  - (* CloseWithError: the queues are emptied *)
+    inj3 C. subst s1. apply Sub; [|reflexivity|reflexivity]. destruct uni; cbn; constructor.
+  - (* ResetFor0RTT: new maps, empty queues *)
+    inj3 C. subst s1. apply Sub; [|reflexivity|reflexivity]. destruct uni; cbn; constructor.
+  - inj3 C. subst s1. apply Same; reflexivity.
+Qed.
+
+Lemma trun_fifo : forall ops s s' outs uni, sm_inv s -> Forall top_ok ops -> trun s ops = (s', outs) ->
+  subseq (tserved uni ops outs) (queue_ids (s_out s uni) ++ tarrivals uni ops outs).
+Proof.
+  induction ops as [|o ops IH]; intros s s' outs uni I Hok E; cbn [trun] in E.
+  - injection E as _ <-. constructor.
+  - destruct (tstep s o) as [[s1 x] f1] eqn:S1. destruct (trun s1 ops) as [s2 outs2] eqn:R.
+    injection E as _ <-. inversion Hok as [|? ? Ho Hops]; subst.
+    destruct (tstep_inv _ _ _ _ _ I Ho S1) as [I1 _].
+    cbn [tserved tarrivals]. eapply tstep_fifo; eauto.
+Qed.
+
+(** ** C15(b), FIFO for the whole streamsMap, across 0-RTT resets: for each stream type, the callers
+    that got a stream after waiting are, in service order, a subsequence of the callers in arrival order *)
+Theorem sm_fifo : forall client mb mu ops s outs uni, 0 <= mb -> 0 <= mu -> Forall top_ok ops ->
+  trun (init_sm client mb mu) ops = (s, outs) ->
+  subseq (tserved uni ops outs) (tarrivals uni ops outs).
+Proof.
+  intros client mb mu ops s outs uni Hb Hu Hok E.
+  pose proof (trun_fifo ops _ _ _ uni (sm_inv_init client mb mu Hb Hu) Hok E) as H.
+  destruct uni; exact H.
+Qed.
+
+(** what ResetFor0RTT does to blocked callers: they are not carried over to the new maps; each of
+    them returns Err0RTTRejected when it wakes (its channel was closed) or its context error if it
+    is cancelled first; none of them ever gets a stream *)
+Theorem sm_reset_fails_waiters : forall s s' r fr, tstep s OReset = (s', r, fr) ->
+  (forall w, In w (queue_ids (s_ob s) ++ o_dead (s_ob s) ++ queue_ids (s_ou s) ++ o_dead (s_ou s) ++ s_zomb s) ->
+             In w (s_zomb s')) /\
+  (forall a, In a (i_parked (s_ib s) ++ i_parked (s_iu s) ++ s_zacc s) -> In a (s_zacc s')) /\
+  queue_ids (s_ob s') = [] /\ queue_ids (s_ou s') = [] /\ i_parked (s_ib s') = [] /\ i_parked (s_iu s') = [] /\
+  s_reset s' = true.
+Proof.
+  intros s s' r fr E. cbn in E. inj3 E. subst s'. cbn.
+  split; [|split; [|repeat split; reflexivity]].
+  - intros w H. unfold queue_ids in H. rewrite !in_app_iff in *. tauto.
+  - intros a H. rewrite !in_app_iff in *. tauto.
+Qed.
+
+Lemma zmem_In : forall w l, In w l -> zmem w l = true.
+Proof.
+  induction l as [|x l IH]; cbn; intros H; [contradiction|].
+  destruct H as [->|H]; [rewrite Z.eqb_refl; reflexivity|]. rewrite (IH H). apply orb_true_r.
+Qed.
+
+Theorem sm_zombie_outcome : forall s uni w, In w (s_zomb s) ->
+  snd (fst (tstep s (OSyncWake uni w))) = RErr Err0RTT /\
+  snd (fst (tstep s (OSyncCancel uni w))) = RErr ErrCtx.
+Proof.
+  intros s uni w H. apply zmem_In in H. unfold tstep; cbn [tstep_core]. rewrite H. split; reflexivity.
+Qed.
+
+Theorem sm_zombie_acceptor_outcome : forall s uni a, In a (s_zacc s) ->
+  snd (fst (tstep s (OAcceptWake uni a))) = RErr Err0RTT /\
+  snd (fst (tstep s (OAcceptCancel uni a))) = RErr ErrCtx.
+Proof.
+  intros s uni a H. apply zmem_In in H. unfold tstep; cbn [tstep_core]. rewrite H. split; reflexivity.
+Qed.
+
+(** no lost wake-up (OpenStreamSync) in every reachable state of the streamsMap *)
+Theorem sm_no_lost_wakeup_open : forall client mb mu ops s outs uni,
+  0 <= mb -> 0 <= mu -> Forall top_ok ops ->
+  trun (init_sm client mb mu) ops = (s, outs) ->
+  let m := s_out s uni in
+  out_quiescent m -> o_queue m <> [] -> o_closed m = None /\ o_max m < o_next m.
+Proof.
+  intros client mb mu ops s outs uni Hb Hu Hok E m.
+  destruct (trun_inv _ _ _ _ (sm_inv_init client mb mu Hb Hu) Hok E) as [I _].
+  destruct (sm_out s uni I) as ((n & K & B & Io) & _ & _).
+  eapply out_no_lost_wakeup_inv; eauto using first_outgoing_range.
 Qed.
